@@ -113,8 +113,10 @@ func (p *StageWorkerPool) Stop() {
 
 func (p *StageWorkerPool) worker(ctx context.Context) {
 	defer p.wg.Done()
+	defer verifPoint("w.exit", p.stage.Name(), 0, nil, 0)
 
 	for {
+		verifPoint("w.idle", p.stage.Name(), 0, nil, 0)
 		select {
 		case <-ctx.Done():
 			return
@@ -124,6 +126,7 @@ func (p *StageWorkerPool) worker(ctx context.Context) {
 			}
 
 			err := p.stage.Process(ctx, item)
+			verifPoint("w.emit", p.stage.Name(), item.SequenceNumber(), item.RawCbor(), 0)
 
 			// Record metrics only for actual processing attempts (not context cancellation)
 			// and only if the shouldRecord check passes (or is nil)
